@@ -194,7 +194,7 @@ func (m *model) advance(ci int) {
 	m.held[ci] = 0
 	for m.done[ci] < m.delivered[ci] {
 		nx := m.done[ci] + 1
-		if b := m.c.Conns[ci].Msgs[nx-1].Beh; (b == "hold" || b == "write-hold") && !m.released[ci][nx] {
+		if b := m.c.Conns[ci].Msgs[nx-1].Beh; (b == "hold" || b == "write-hold" || b == "answer-hold") && !m.released[ci][nx] {
 			m.held[ci] = nx
 			return
 		}
@@ -399,6 +399,10 @@ func runCase(c Case) *ev.Failure {
 		case "sleep":
 			time.Sleep(time.Duration(b.K) * time.Microsecond)
 		case "hold":
+			<-gates[ci][seq-1]
+		case "answer-hold":
+			// the request is answered, and the handler goes on with work of its own
+			m.Answer(2001).WriteTo(hc)
 			<-gates[ci][seq-1]
 		case "write":
 			m.Answer(2001).WriteToWithRetry(hc, 2)
@@ -640,7 +644,7 @@ func genCase(t *rapid.T) Case {
 		}
 		nm := rapid.IntRange(1, 8).Draw(t, "msgs")
 		for j := 0; j < nm; j++ {
-			m := HMsg{Beh: rapid.SampledFrom([]string{"return", "hold", "gosched", "return", "hold", "sleep", "return", "gosched", "write", "write-hold"}).Draw(t, "beh")}
+			m := HMsg{Beh: rapid.SampledFrom([]string{"return", "hold", "gosched", "return", "hold", "sleep", "return", "gosched", "write", "write-hold", "answer-hold"}).Draw(t, "beh")}
 			switch m.Beh {
 			case "gosched":
 				m.K = rapid.IntRange(1, 20).Draw(t, "k")
@@ -708,7 +712,7 @@ func classify(c Case) (bool, []string) {
 			for j := 1; j < len(cc.Msgs); j++ {
 				if cc.Msgs[j].Stream != cc.Msgs[j-1].Stream {
 					add("sctp:consecutive-messages-on-different-streams")
-					if cc.Msgs[j-1].Beh == "hold" || cc.Msgs[j-1].Beh == "write-hold" {
+					if cc.Msgs[j-1].Beh == "hold" || cc.Msgs[j-1].Beh == "write-hold" || cc.Msgs[j-1].Beh == "answer-hold" {
 						add("sctp:held-handler-then-message-on-another-stream")
 					}
 				}
@@ -730,7 +734,7 @@ func classify(c Case) (bool, []string) {
 		}
 		for _, m := range cc.Msgs {
 			add("beh:" + m.Beh)
-			if m.Beh == "hold" || m.Beh == "write-hold" {
+			if m.Beh == "hold" || m.Beh == "write-hold" || m.Beh == "answer-hold" {
 				hold = true
 			}
 		}
@@ -810,7 +814,7 @@ func classify(c Case) (bool, []string) {
 
 var prop = ev.Register(&ev.Prop[Case]{
 	ID: "C08", Name: "dispatch",
-	Rule: "1..4 connections (accept path via Server.Serve on a memnet.Listener and dial path via diam.NewConn, or a multi-stream SCTP association over the in-memory backend whose messages arrive one chunk each on streams {0,1,2,7}; one shared ServeMux, or (1 in 5) a nil Handler = diam.DefaultServeMux), 1..8 numbered messages each, arriving in one segment / one byte at a time / arbitrary fragments, a scripted global interleaving of the fragments, handler behaviours {return, Gosched x k, sleep <= 1 ms, hold until released, answer with WriteToWithRetry, answer with WriteToWithRetry while the transport stalls that write until released; optionally the first handler requests CloseNotify}, optionally the peer's EOF right behind its last byte, scripted release points and scripted registrations of further handlers on the mux from another goroutine; before every release each connection must have reached the point the model 'one handler at a time per connection, connections independent' predicts (bounded wait 5 s), and the enter/exit log of each connection must read enter 1, exit 1, enter 2, ...; non-trivial = >= 2 connections, >= 3 messages inside one segment on one of them and >= 1 held handler",
+	Rule: "1..4 connections (accept path via Server.Serve on a memnet.Listener and dial path via diam.NewConn, or a multi-stream SCTP association over the in-memory backend whose messages arrive one chunk each on streams {0,1,2,7}; one shared ServeMux, or (1 in 5) a nil Handler = diam.DefaultServeMux), 1..8 numbered messages each, arriving in one segment / one byte at a time / arbitrary fragments, a scripted global interleaving of the fragments, handler behaviours {return, Gosched x k, sleep <= 1 ms, hold until released, answer and then hold until released, answer with WriteToWithRetry, answer with WriteToWithRetry while the transport stalls that write until released; optionally the first handler requests CloseNotify}, optionally the peer's EOF right behind its last byte, scripted release points and scripted registrations of further handlers on the mux from another goroutine; before every release each connection must have reached the point the model 'one handler at a time per connection, connections independent' predicts (bounded wait 5 s), and the enter/exit log of each connection must read enter 1, exit 1, enter 2, ...; non-trivial = >= 2 connections, >= 3 messages inside one segment on one of them and >= 1 held handler",
 	Gen:  genCase, Run: runCase, Classify: classify, Attempts: 5,
 })
 
